@@ -64,7 +64,7 @@ func VerifHarness_C03_delivery() {
 	for e := 0; e < nEvents; e++ {
 		w := verifrt.Choose(steps[e]+".tx", 2)
 		tx := txs[w]
-		src := verifrt.Choose(steps[e]+".source", 6)
+		src := verifrt.Choose(steps[e]+".source", 7)
 		var herr error
 		noteSeen := func(can bool) {
 			if can && !confirmed[w] {
@@ -98,6 +98,12 @@ func VerifHarness_C03_delivery() {
 		case 4: // submitted locally (fed back through the node)
 			herr = node.HandleTx(ctx, tx)
 			noteSeen(true)
+		case 6: // only announced (inventory from the trusted peer); the body does not follow
+			inv := wire.NewMsgInv()
+			h := ids[w]
+			inv.AddInvVect(wire.NewInvVect(wire.InvTypeTx, &h))
+			_, herr = node.messageHandlers[wire.CmdInv].Handle(ctx, inv)
+			verifrt.Reach("C03.event.announced-only")
 		case 5: // first seen inside a processed block
 			verifrt.Assume(!confirmed[w])
 			height++
